@@ -43,12 +43,18 @@ def make_wl(rng, k):
         # read names that start with '#' (valid QNAME); the intergenic reads at 40-220 are the first records of their chromosome
         spec["hash_names"] = 1
         spec["intergenic"] = max(spec.get("n_chr", 3), 3)
+    if k is not None and k % 8 == 7:
+        # two experiments with the same reads in one invocation under --high_memory (the per-read alignment lists of the first must
+        # not take part in the second)
+        spec.update(n_exp=2, exp_mode="same", n_bams=1, pile=0)
+        opts["force_cell"] = {"high_memory": True, "threads": 1 + (k // 8) % 2, "sched": {"policy": "serial", "seed": 0}}
+        opts["no_fault"] = True
     if k is not None and k % 8 == 3:
         # chrR: two small genes 38 kb apart, joined by one read-through read whose long intron spans the coverage valley
         spec["long_locus"] = 4
     # chrP: >= 1024 short reads inside one coverage bin; a deep island whose last coverage valley is its last bin
     spec["pile"] = 1 if (k is not None and k % 4 == 1) or (k is None and rng.random() < 0.15) else 0
-    if k is not None and (spec["pile"] or spec["long_locus"]):
+    if k is not None and (spec["pile"] or spec["long_locus"]) and not opts.get("no_fault"):
         # region splitting differs between the two alignment stores: pin the memory mode alternately
         opts["force_cell"] = {"high_memory": (k // 2) % 2 == 0}
     return spec, opts
